@@ -859,7 +859,17 @@ def same_slot(ws, what):
     return s0
 
 
+def prefetch():
+    """the three AST dumps in parallel (cached on disk by ast_of; a cold cache costs one clang run per place)"""
+    from concurrent.futures import ThreadPoolExecutor
+    places = [("src/SM/KickMap.cpp", "KickMap::updateSM"), ("src/SM/KickMap.cpp", "KickMap::KickMap"),
+              ("src/SM/SourceMap.cpp", "SourceMap::SourceMap")]
+    with ThreadPoolExecutor(max_workers=3) as ex:
+        list(ex.map(lambda a: ast_of(*a), places))
+
+
 def translate():
+    prefetch()
     cip = ctor_ip_it()
     d, body = wu.method_body("src/SM/KickMap.cpp", "KickMap::updateSM", "updateSM")
     pre, loop = find_loop(body)
